@@ -5,6 +5,7 @@ import (
 	"go/types"
 	"math"
 	"math/big"
+	"strings"
 	"unicode"
 
 	"golang.org/x/tools/go/ssa"
@@ -234,7 +235,42 @@ func ruleDomainNodes(p *Prog, r *Report) {
 	}
 	// ASCII: every rune of a value node is 7-bit
 	if fn := p.MustFunc(r, "ast", "(*ASCIINode).checkRep"); fn != nil {
-		if hasField(fn, 0, "value") && hasField(fn, 0, "isValue") {
+		if hasField(fn, 0, "value") && hasField(fn, 0, "isValue") && len(stringRangeSites(fn)) == 0 {
+			// the value is not walked rune by rune in checkRep itself (a byte
+			// loop, a helper): evaluate checkRep on values made of one or two
+			// characters, one representative per cell around 127/128 and the
+			// UTF-8 length boundaries, alone and next to an ASCII character
+			key := rule + ":ast.(*ASCIINode).checkRep:value-runes"
+			reps := []rune{0, 1, 31, 32, 'a', 126, 127, 128, 129, 255, 256, 0x7FF, 0x800, 0xFFFD, 0x10000, 0x10FFFF}
+			var bad, undec []string
+			for _, c := range reps {
+				for _, v := range []string{string(c), "a" + string(c), string(c) + "a"} {
+					in := NewInterp(p)
+					in.PathBind["p0.isValue"] = boolVal(true)
+					in.PathBind["p0.value"] = strVal(v)
+					in.PathBind["p0.variable.name"] = strVal("")
+					in.PathBind["p0.variable.minLength"] = int64Val(0)
+					in.PathBind["p0.variable.maxLength"] = int64Val(0)
+					out := in.Run(fn, defaultArgs(fn), nil)
+					switch {
+					case len(in.Stuck) > 0 || (out.CanReturn && out.CanPanic):
+						undec = append(undec, fmt.Sprintf("%q: not determined", v))
+					case c > 127 && out.CanReturn:
+						bad = append(bad, fmt.Sprintf("the value %q (with %#U) is accepted but must be refused (domain: 0 <= rune <= 127)", v, c))
+					case c <= 127 && !out.CanReturn:
+						bad = append(bad, fmt.Sprintf("the value %q is refused but must be accepted (domain: 0 <= rune <= 127)", v))
+					}
+				}
+			}
+			switch {
+			case len(bad) > 0:
+				r.bad(rule, key, p.Pos(fn.Pos()), strings.Join(firstN(bad, 3), "; "))
+			case len(undec) > 0:
+				r.unk(rule, key, p.Pos(fn.Pos()), strings.Join(firstN(undec, 3), "; "))
+			default:
+				r.ok(rule, key, p.Pos(fn.Pos()), fmt.Sprintf("evaluated on values of one and two characters for %d representatives around 127/128 and the UTF-8 length boundaries: exactly the values holding a rune above 127 are refused", len(reps)))
+			}
+		} else if hasField(fn, 0, "value") && hasField(fn, 0, "isValue") {
 			CheckDomain(p, r, DomainSpec{Rule: rule, Key: rule + ":ast.(*ASCIINode).checkRep:value-runes", Fn: fn,
 				Env:    map[string]Val{"p0.isValue": boolVal(true), "p0.variable.name": strVal(""), "p0.variable.minLength": int64Val(0), "p0.variable.maxLength": int64Val(0)},
 				Subjs:  []Subj{{Name: "rune of value", Kind: SElem, Path: "p0.value", Type: types.Typ[types.Rune]}},
